@@ -236,3 +236,56 @@ var _ uuid.UUID
 //@ invariant [running-total] size == total && total >= 0 && (first == (len(*entries) == 0))
 //@ invariant [C06 nothing-before-the-first] len(*entries) == 0 ==> total == 0
 //@ invariant [C06 size-limit] len(*entries) >= 2 ==> total <= *maxSize
+
+// ---------------------------------------------------------------------------------------------
+// C06 / C03: local snapshot and compaction. The reference storage after CreateSnapshot(i) + Compact(i) starts at i+1 and its
+// snapshot carries the index asked for with the term of the entry stored there. Here the first index is derived from the
+// first stored key, so: the marker/snapshot is written for exactly the requested index with the term of the stored entry, and
+// the compaction queued in the same batch reaches exactly up to the snapshot index (an entry left in front of the marker
+// would be replayed on top of the restored snapshot after a restart - C03 - and moves FirstIndex after a reopen - C06).
+//@ func (*storage/wal.badgerWAL).seekEntry
+//@ props C06 C03
+//@ assume
+//@ ensures [found] isnil(ret1) && entry != nil ==> true
+//@ modifies fields(entry)
+//@ func (*storage/wal.badgerWAL).FirstIndex
+//@ props C06 C03
+//@ assume
+//@ modifies * except type badgerWAL.cache; type badgerWAL.db; type badgerWAL.groupId
+//@ func (*storage/wal.badgerWAL).deleteEntriesUntilIndex
+//@ props C06 C03
+//@ assume
+//@ modifies * except type badgerWAL.cache; type badgerWAL.db; type badgerWAL.groupId
+
+//@ func (*storage/wal.badgerWAL).CreateSnapshot
+//@ props C06 C03
+//@ safety UNCLAIMED
+//@ ghost first uint64 = 0
+//@ ghost haveFirst int = 0
+//@ ghost sought int = 0
+//@ ghost marked int = 0
+//@ ghost compacted int = 0
+//@ at call badgerWAL).FirstIndex
+//@ set first = $ret0
+//@ set haveFirst = ite(isnil($ret1), 1, 0)
+//@ end
+//@ at call badgerWAL).seekEntry
+//@ requires [C06 looks-up-the-requested-index] $arg2 == idx && !$arg3 && $arg1 != nil
+//@ set sought = 1
+//@ end
+//@ at call badgerWAL).writeSnapshot
+//@ requires [C06 snapshot-at-requested-index] sought == 1 && $arg2.Metadata.Index == idx && $arg2.Data == data && $arg2.Metadata.ConfState == *confState
+//@ set marked = 1
+//@ end
+//@ at call badgerWAL).deleteEntriesUntilIndex
+//@ requires [C06 compacts-up-to-the-snapshot] marked == 1 && $arg2 == idx
+//@ set compacted = 1
+//@ end
+//@ at call WriteBatch).Flush
+//@ requires [C06 flushes-marker-and-compaction-together] marked == 1 && compacted == 1
+//@ end
+//@ requires [wal] this != nil && this.db != nil && this.cache != nil
+//@ ensures [C06 snapshot-and-compaction] isnil(ret1) ==> marked == 1 && compacted == 1 && ret0.Metadata.Index == idx
+//@ ensures [C06 out-of-date] haveFirst == 1 && idx < first ==> !isnil(ret1) && marked == 0 && compacted == 0
+//@ ensures [C06 needs-confstate] confState == nil ==> ret1 == EmptyConfStateErr && marked == 0
+//@ modifies *
